@@ -10,9 +10,11 @@ skip_suite = '--skip-suite' in sys.argv
 env = dict(os.environ, GOFLAGS='-mod=mod', GOPROXY='off', GOSUMDB='off', GOTOOLCHAIN='local')
 dst = f'/verif/seeded/{sid}'
 os.makedirs(dst, exist_ok=True)
-for f in os.listdir(src):
-    shutil.copy(os.path.join(src, f), dst)
+if os.path.abspath(src) != os.path.abspath(dst):
+    for f in os.listdir(src):
+        shutil.copy(os.path.join(src, f), dst)
 meta = json.load(open(f'{dst}/meta.json'))
+prev = meta.get('verification', {})
 prop = meta['property']
 wt = tempfile.mkdtemp(prefix='verif-seedwt.', dir='/tmp')
 os.rmdir(wt)
@@ -50,6 +52,11 @@ res['check_exit'] = p.returncode
 res['check_violations'] = kinds
 res['check_s'] = round(time.time() - t)
 res['caught_by_quick_check'] = p.returncode == 1
+if skip_suite:
+    for k in ('suite_passes_with_change', 'suite_s'):
+        if k in prev: res[k] = prev[k]
+    if 'caught_by_quick_check' in prev and not prev['caught_by_quick_check'] and res['caught_by_quick_check']:
+        res['history'] = 'missed by the first version of the check (exit %s); caught after the check was strengthened' % prev.get('check_exit')
 meta['verification'] = res
 json.dump(meta, open(f'{dst}/meta.json', 'w'), indent=1)
 print(sid, json.dumps({k: v for k, v in res.items() if 'tail' not in k}))
